@@ -115,17 +115,12 @@ def is_aggregate_key(key: str) -> bool:
 
 # A string that must start and end with quotes, and somewhere inside includes
 # at least one tag. Tag may be variable (`{{ }}`), block (`{% %}`), or comment (`{# #}`).
-DYNAMIC_EXPR_RE = re.compile(
-    r"^{start_quote}.*?(?:{var_tag}|{block_tag}|{comment_tag}).*?{end_quote}$".format(
-        var_tag=r"(?:\{\{.*?\}\})",
-        block_tag=r"(?:\{%.*?%\})",
-        comment_tag=r"(?:\{#.*?#\})",
-        start_quote=r"(?P<quote>['\"])",  # NOTE: Capture group so we check for the same quote at the end
-        end_quote=r"(?P=quote)",
-    ),
-    # NOTE: The string may span multiple lines
-    re.DOTALL,
-)
+#
+# NOTE: The quotes are checked separately from the tags, so that the pattern has a single lazy
+#       quantifier. A single pattern like `^quote.*?(tag).*?quote$` takes cubic time on inputs
+#       like `"{{}}{{}}{{}}..."|lower`.
+# NOTE 2: The string may span multiple lines
+DYNAMIC_EXPR_RE = re.compile(r"\{\{.*?\}\}|\{%.*?%\}|\{#.*?#\}", re.DOTALL)
 
 
 def is_dynamic_expression(value: Any) -> bool:
@@ -136,8 +131,12 @@ def is_dynamic_expression(value: Any) -> bool:
     if not isinstance(value, str) or not value or len(value) < MIN_EXPR_LEN:
         return False
 
-    # Is not wrapped in quotes, or does not contain any tags
-    if not DYNAMIC_EXPR_RE.match(value):
+    # Is not wrapped in quotes
+    if value[0] not in ("'", '"') or value[-1] != value[0]:
+        return False
+
+    # Does not contain any tags (between the quotes)
+    if not DYNAMIC_EXPR_RE.search(value, 1, len(value) - 1):
         return False
 
     return True
